@@ -732,6 +732,12 @@ class BuiltinMixin:
             self.write_heap(recv, ck, TBytes, V(TBytes, z3.simplify(new)))
             self.write_heap(recv, pk, TInt, mk_int(p + m))
             return mk_int(m)
+        if name == 'peek':
+            # BufferedReader.peek(n): buffered octets from the current position without advancing (how many is
+            # unspecified; on an in-memory source: everything that is left)
+            p = pos.z
+            avail = z3.If(p >= n, 0, n - p)
+            return V(TBytes, z3.simplify(z3.Extract(content.z, p, avail)))
         if name == 'getvalue':
             return content
         if name == 'close':
